@@ -5,6 +5,7 @@ etc., are bound to the Tensor class in ``mygrad.__init__.py``.
 """
 
 from collections import deque
+from copy import deepcopy
 from numbers import Integral, Number
 from typing import (
     TYPE_CHECKING,
@@ -1214,8 +1215,9 @@ class Tensor:
         if base is not None:
             # we need to be able to replay view-ops for doing in-place operations
             # on graphs with views
-            f.replay_args = op_args
-            f.replay_kwargs = op_kwargs
+            # (copies: the caller may go on to mutate, e.g., a list that specified a shape)
+            f.replay_args = deepcopy(op_args)
+            f.replay_kwargs = deepcopy(op_kwargs)
             f.replay_force_constant = constant
 
         # record that a variable participated in that op
